@@ -100,6 +100,21 @@ func Motifs() []*Case {
 		map[string]vplug.Behaviour{"loop#0": slow(15, "success"), "loop#1": slow(5, "success"), "loop#2": slow(10, "success")}, nil)
 	fe.Subs["sub.yaml"] = sub
 	out = append(out, fe)
+	// a loop next to plugin steps that change stage while the loop is finishing (items end at
+	// 5-15 ms; the siblings end at 10, 25, 40, 60 and 90 ms, so some sibling is in transition
+	// whenever the loop is held at a schedule point); the result needs all of them
+	sibSteps := []*Step{{ID: "loop", Kind: "foreach", Workflow: "sub.yaml", Items: items("loop", 3), Parallelism: LitVal(IntLit(2))}}
+	sibScript := map[string]vplug.Behaviour{"loop#0": slow(15, "success"), "loop#1": slow(5, "success"), "loop#2": slow(10, "success")}
+	sibOut := MapVal([]string{"r"}, []*Val{oexpr("loop", "outputs", "success")})
+	for i, ms := range []int{10, 25, 40, 60, 90} {
+		id := "sib" + string(rune('a'+i))
+		sibSteps = append(sibSteps, pstep(id, nil))
+		sibScript[id] = slow(ms, "success")
+		sibOut.Set(id, oexpr(id, "outputs", "success", "s"))
+	}
+	fs := motifCase("foreach-with-siblings", sibSteps, map[string]*Val{"success": sibOut}, sibScript, nil)
+	fs.Subs["sub.yaml"] = sub
+	out = append(out, fs)
 	inner := &Program{Input: itemIn, Steps: []*Step{w}, Outputs: []*Output{{ID: "success", Val: MapVal([]string{"r"}, []*Val{oexpr("w", "outputs", "success", "v")})}}}
 	outer := &Program{Input: itemIn, Steps: []*Step{{ID: "in", Kind: "foreach", Workflow: "inner.yaml", Items: &Val{K: "list", Vals: []*Val{
 		MapVal([]string{"k", "n"}, []*Val{ExprVal(&Expr{K: "bin", Op: "+", Args: []*Expr{{K: "in", Field: "k"}, {K: "lit", Lit: StrLit(".in#a")}}}), ExprVal(&Expr{K: "in", Field: "n"})}),
